@@ -1,0 +1,13 @@
+//go:build verif
+
+package signaller
+
+// VerifOrderSignalIDs, when set by a simulation harness, decides the order in which the signaller walks its signal ids
+// (Go map iteration order otherwise), so that one seed is one execution.
+var VerifOrderSignalIDs func(ids []string)
+
+func orderSignalIDs(ids []string) {
+	if VerifOrderSignalIDs != nil {
+		VerifOrderSignalIDs(ids)
+	}
+}
